@@ -29,6 +29,20 @@ impl RngCore for DetRng {
 }
 impl CryptoRng for DetRng {}
 
+fn unhex(s: &str) -> Vec<u8> {
+    (0..s.len() / 2).map(|i| u8::from_str_radix(&s[2 * i..2 * i + 2], 16).unwrap()).collect()
+}
+
+/// constants computed by `hpke-sim zerox` (recipient ikm "cfgprobe zero-x recipient")
+fn zero_x_enc(kem: &str) -> Option<&'static str> {
+    match kem {
+        "p256" => Some("041ed31734afa052c41b6e723b4b9c67e1719c9581f447ce70a4450ad802462924fac78982b3de8413830e59442a1d826797bd90d5d0a83f0e2bb316a55c358c2e"),
+        "p384" => Some("04f97b05db228f742b5901b84ec6cfcacdafaeaceda6769a44e4d73bb902e0406cdded30d738cdec1cb23fe5980f447d2739cf2c80eff9b95540ba85877ad32f4f04a81e0f210cad291079375f9cb3bcc37a5251e2586387412ce12bcd18249215"),
+        "p521" => Some("04007f0f183a07f53368212b0b0519126d4f4a4b89a89a54e623e73d454e02f1e26f2c39dce22c2a8fadc2d7e1dd2c75d30d2f7a9352157b4ab55ff15491738691d4030168ca8ab554c5f7e2317c50ecc9e53ddfd4ee86fa4cea45865b08e479648fc2209b780e9dbc1d8a0d44c0823a9e17d928f0b0ee138545f255f001b0749cea0460f9"),
+        _ => None,
+    }
+}
+
 fn hexs(b: &[u8]) -> String {
     b.iter().map(|x| format!("{:02x}", x)).collect()
 }
@@ -130,6 +144,25 @@ macro_rules! transcript {
             println!("EXPORT-ONLY {} seal {} / open {}", $name, word(&sealed), word(&opened));
             h.update(word(&sealed).as_bytes());
             h.update(word(&opened).as_bytes());
+        }
+        // edge-case valid key: an encapsulated key whose DH with this recipient has x-coordinate 0
+        // (not the point at infinity): the receiver must be set up and export as everywhere else
+        if let Some(enc_hex) = zero_x_enc($name) {
+            let (sk_z, _) = <Kem as KemTrait>::derive_keypair(b"cfgprobe zero-x recipient");
+            let enc_bytes = unhex(enc_hex);
+            let word = match <Kem as KemTrait>::EncappedKey::from_bytes(&enc_bytes) {
+                Err(e) => format!("enc rejected {:?}", e),
+                Ok(enc_z) => match hpke::setup_receiver::<ChaCha20Poly1305, HkdfSha256, Kem>(&OpModeR::<Kem>::Base, &sk_z, &enc_z, info) {
+                    Err(e) => format!("setup failed {:?}", e),
+                    Ok(r) => {
+                        let mut e = [0u8; 32];
+                        r.export(b"zero-x", &mut e).unwrap();
+                        format!("export {}", hexs(&e))
+                    }
+                },
+            };
+            println!("ZERO-X {} {}", $name, word);
+            h.update(word.as_bytes());
         }
         println!("KEM {} {}", $name, hexs(&h.finalize()));
         #[cfg(any(feature = "alloc", feature = "std"))]
